@@ -35,10 +35,10 @@ func init() {
 		ID:    "C05",
 		Title: "Chain-key announcements: recipient-only, exact, and reaching every member",
 		Explanation: "Decides structural necessary conditions from the type-checked SSA of /repo, using a context-sensitive backward origin tracer. " +
-			"(D1) seal/open sibling agreement: the box.Seal behind SecretStore.GetShareableChainKey uses the own member-device holder's DEVICE private key (the key DeviceSign signs with) and the target-member parameter, the box.Open behind RegisterChainKey uses the holder's MEMBER private key (the key MemberSign signs with) and the sender-device parameter, both holders being obtained for the group parameter; both nonces derive from the group's public key and from nothing else, with the same origin signature on both sides; private/public keys go through the same conversion primitives on both sides; the opened bytes are the ciphertext parameter; box.Open failure and every error on the way up reject; what is registered is the decoded output of box.Open under the sender and group parameters, on every success path; GetShareableChainKey returns only box.Seal output. " +
+			"(D1) seal/open sibling agreement: the box.Seal behind SecretStore.GetShareableChainKey uses the own member-device holder's DEVICE private key (the key DeviceSign signs with) and the target-member parameter, the box.Open behind RegisterChainKey uses the holder's MEMBER private key (the key MemberSign signs with) and the sender-device parameter, both holders being obtained for the group parameter; both nonces derive from the group's public key and from nothing else, with the same origin signature on both sides; private/public keys go through the same conversion primitives on both sides; the opened bytes are the ciphertext parameter; box.Open failure and every error on the way up reject (a wrapper that returns the bool verdict of box.Open unchanged hands it on: its caller must then enforce it); what is registered is the decoded output of box.Open under the sender and group parameters, on every success path; GetShareableChainKey returns only box.Seal output. " +
 			"(D2) the recipient filter - the root-package function taking (metadata, local public key) and returning an error from which a GroupDeviceChainKeyAdded is decoded, the decode, the event-type guard and the recipient test each living in that function or in a module helper (depth <= 2), decoded values possibly carried in a local struct built by a helper - returns sender key and ciphertext decoded from one GroupDeviceChainKeyAdded taken from the metadata payload, only on the accepting side of (event type == GroupDeviceChainKeyAdded) and of (local key Equals decoded DestMemberPk); a test made in a helper counts when all success returns of the helper pass it and every caller up to the filter enforces the helper's error. " +
 			"(D3) every module call of RegisterChainKey takes sender and ciphertext from the results of one recipient-filter call (directly or through a map filled only with such results) which, looking through the filter and its helpers, are the DevicePk and the Payload of the decoded announcement; every use of the filter's results lies on the nil-error side of the filter call, and the filter is given the own MEMBER public key. " +
-			"(D4) announce: the metadata-event handler behind ActivateGroupContext calls SendSecret on every success path of the GroupMemberDeviceAdded branch with the MemberPk decoded from the event; activation subscribes before it starts the catch-up, sends to every member listed and registers from the listed events, both unconditionally (every success return of the activation, and every return of each function or goroutine body on the way, is preceded by the SendSecret loop over the listed members and by the RegisterChainKey loop over the listed announcements; an error return of the activation itself is the only excuse); SendSecret seals for exactly the member it addresses (GetShareableChainKey target = DestMemberPk = its parameter), publishes the sealed bytes under the own device key and has no success return that skips publishing. " +
+			"(D4) announce: the metadata-event handler behind ActivateGroupContext calls SendSecret on every success path of the GroupMemberDeviceAdded branch with the MemberPk decoded from the event; activation subscribes before it starts the catch-up, sends to every member listed and registers from the listed events, both unconditionally (every success return of the activation, and every return of each function or goroutine body on the way, is preceded by the SendSecret loop over the listed members and by the RegisterChainKey loop over the listed announcements; an error return of the activation itself is the only excuse; function values - closures, functions, method values - stored in a local table and handed to a module helper that calls the values derived from its parameter count as called at the helper call, and as unconditionally called only when every return of the helper is preceded by those calls); SendSecret seals for exactly the member it addresses (GetShareableChainKey target = DestMemberPk = its parameter), publishes the sealed bytes under the own device key and has no success return that skips publishing. " +
 			"(D5) the set that SendSecret's 'already sent to this member' refusal reads is written only on the equal side of a comparison between the index's own DEVICE key and the DevicePk of the GroupDeviceChainKeyAdded event being indexed, keyed by that event's DestMemberPk, and is otherwise only initialised empty (an announcement by another device must never silence this device); the one other accepted writer is a reservation made by SendSecret itself (or a helper, depth <= 2) for its member parameter, provided every path of SendSecret from the reservation to a return that does not follow a successful publication passes a delete of that same key in that same set (a constant result chosen by a key-presence test, as in a check-and-mark helper, is recognised as reading the set). " +
 			"(D6) in the get-or-create function behind GetShareableChainKey (the function that returns a *DeviceChainKey and both looks up and stores under the chain-key datastore namespace) every store site is dominated by a lookup made under the same write lock, held without release from the lookup to the store: the key that gets sealed is either the stored one or one registered in the critical section that found it missing. " +
 			"(D7) the store-event subscriber of the metadata store (the function that opens log entries into *GroupMetadataEvent and emits them on the event bus, which is the only way the activated group context learns of GroupMemberDeviceAdded / GroupDeviceChainKeyAdded entries): the per-entry open call lies in a loop (in that function or, for a per-entry helper, around its call sites), no path from the failing side of the open call or of an Emit leaves that loop before its next iteration (return, break; a return from a callee that contains the loop counts), and every successfully opened entry reaches the Emit of its *GroupMetadataEvent before the next iteration: one unopenable entry must not suppress the events of the entries behind it. " +
@@ -1153,30 +1153,50 @@ func c05D1(c *Ctx, tr *c05Tracer, h *c05Holder, sealEntry, openEntry *ssa.Functi
 				c.check(c05All(box, func(o c05Origin) bool { return isEntryParam(spec.entry, pCipher)(o) && o.Path == "" }), "D1", cons+".ciphertext", posOf(bx.site),
 					"the opened bytes are the ciphertext parameter",
 					"the opened bytes must be the ciphertext parameter of "+en+" but derive from: "+c05Describe(box))
-				// verdict of box.Open and of every call on the way up
-				okv := boolVerdict(bx.site)
-				r := rejectOnFailure(bx.fn, okv)
-				var by []*ssa.Return
-				if okv != nil {
-					by = bypassReturns(bx.fn, edgesOfVerdict(okv).Accept, nil)
-				}
-				c.check(okv != nil && r.OK && len(by) == 0, "D1", cons+".verdict", posOf(bx.site),
-					"box.Open accepted on every success path of "+fnName(bx.fn)+"; failure rejects",
-					"box.Open verdict not enforced in "+fnName(bx.fn)+": "+r.Why+" bypass="+describeReturns(c, by))
-				for _, up := range bx.chain {
-					caller := up.Parent()
-					ev := errVerdict(up)
-					okc := ev != nil
-					why := "error result discarded"
-					if okc {
-						rr := rejectOnFailure(caller, ev)
-						bb := bypassReturns(caller, edgesOfVerdict(ev).Accept, []ssa.Value{ev})
-						okc = rr.OK && len(bb) == 0
-						why = rr.Why + " bypass=" + describeReturns(c, bb)
+				// verdict of box.Open and of every call on the way up; a wrapper that returns
+				// the bool verdict unchanged hands it on to its caller, which must enforce it
+				cur := boolVerdict(bx.site)
+				curFn := bx.fn
+				curCons, curPos := cons+".verdict", posOf(bx.site)
+				what := "box.Open verdict"
+				for i := len(bx.chain); ; i-- {
+					enforced, why := false, "result discarded"
+					if cur != nil {
+						r := rejectOnFailure(curFn, cur)
+						var vs []ssa.Value
+						if isErrorType(cur.Type()) {
+							vs = []ssa.Value{cur}
+						}
+						by := bypassReturns(curFn, edgesOfVerdict(cur).Accept, vs)
+						enforced = r.OK && len(by) == 0
+						why = r.Why + " bypass=" + describeReturns(c, by)
 					}
-					c.check(okc, "D1", fnName(caller)+"->"+fnName(c05CalleeOf(up))+".verdict", posOf(up),
-						"the opener's error rejects and every success return follows its nil result",
-						"the error of the opening step is not enforced in "+fnName(caller)+": "+why)
+					handed := -1
+					if !enforced && cur != nil && i > 0 {
+						handed = c05HandedOn(curFn, cur)
+					}
+					switch {
+					case enforced:
+						c.ok("D1", curCons, curPos, "%s accepted on every success path of %s; failure rejects", what, fnName(curFn))
+					case handed >= 0:
+						c.ok("D1", curCons, curPos, "%s is returned unchanged by %s (result #%d) and enforced by its caller", what, fnName(curFn), handed)
+					default:
+						c.fail("D1", curCons, curPos, "%s not enforced in %s: %s", what, fnName(curFn), why)
+					}
+					if i == 0 {
+						break
+					}
+					up := bx.chain[i-1]
+					caller := up.Parent()
+					curCons, curPos = fnName(caller)+"->"+fnName(c05CalleeOf(up))+".verdict", posOf(up)
+					if handed >= 0 {
+						cur = resultValue(up, handed)
+						what = "box.Open verdict handed on by " + fnName(curFn)
+					} else {
+						cur = errVerdict(up)
+						what = "error of the opening step " + fnName(c05CalleeOf(up))
+					}
+					curFn = caller
 				}
 				c05D1Registered(c, tr, spec.entry, bx, pGroup, pKey)
 			} else {
@@ -1839,7 +1859,7 @@ func c05D4(c *Ctx, tr *c05Tracer, filters []*c05Filter) {
 		}
 		return false
 	}
-	reachable := w.reachableFuncs([]*ssa.Function{activate}, 4)
+	reachable := c05Reachable(c, []*ssa.Function{activate}, 4)
 	var rfuncs []*ssa.Function
 	for fn := range reachable {
 		if fnPkg(fn) != nil && fnPkg(fn).Path() == pkgRoot {
@@ -1949,7 +1969,8 @@ func c05D4(c *Ctx, tr *c05Tracer, filters []*c05Filter) {
 			if cal == nil || !inModule(cal) || cal.Blocks == nil {
 				continue
 			}
-			sub := w.reachableFuncs([]*ssa.Function{cal}, 3)
+			handed, _ := c05HandedFuncs(c, ci)
+			sub := c05Reachable(c, append([]*ssa.Function{cal}, handed...), 3)
 			handles := false
 			listed := map[string]bool{}
 			for f := range sub {
@@ -3131,7 +3152,6 @@ func c05D5Reservation(c *Ctx, tr *c05Tracer, sendSecret *ssa.Function, sf c05Set
 // construct inside a loop counts as reached when the loop is entered), directly or through
 // calls / go statements to module functions all of whose returns are preceded by them.
 func c05Unconditional(c *Ctx, root *ssa.Function, cores []ssa.Instruction) (bool, string) {
-	w := c.W
 	barrierBlk := map[*ssa.BasicBlock]bool{}
 	coreFns := map[*ssa.Function]bool{}
 	for _, in := range cores {
@@ -3148,7 +3168,7 @@ func c05Unconditional(c *Ctx, root *ssa.Function, cores []ssa.Instruction) (bool
 			return v
 		}
 		r := false
-		for f := range w.reachableFuncs([]*ssa.Function{fn}, 3) {
+		for f := range c05Reachable(c, []*ssa.Function{fn}, 3) {
 			if coreFns[f] {
 				r = true
 			}
@@ -3182,16 +3202,31 @@ func c05Unconditional(c *Ctx, root *ssa.Function, cores []ssa.Instruction) (bool
 					has = true
 					return true
 				}
+				// function values handed to a helper that always calls them
+				if handed, always := c05HandedFuncs(c, in.(ssa.CallInstruction)); always {
+					for _, h := range handed {
+						if reaches(h) && must(h, depth+1) {
+							has = true
+							return true
+						}
+					}
+				}
 			}
 			return false
 		}
-		// evaluate the barrier on every instruction first (has), then the path query
+		// evaluate the barrier on every instruction first (has); a barrier inside a loop counts
+		// as reached when the loop is entered (its header), then the path query
+		hdrs := map[*ssa.BasicBlock]bool{}
 		for _, b := range fn.Blocks {
 			for _, in := range b.Instrs {
-				barrier(in)
+				if barrier(in) {
+					if hdr, _ := c05LoopOf(b); hdr != nil {
+						hdrs[hdr] = true
+					}
+				}
 			}
 		}
-		by := c05SuccessWithout(fn, []edge{{nil, fn.Blocks[0]}}, barrier)
+		by := c05SuccessWithout(fn, []edge{{nil, fn.Blocks[0]}}, func(in ssa.Instruction) bool { return hdrs[in.Block()] || barrier(in) })
 		miss[fn] = by
 		memo[fn] = has && len(by) == 0
 		return memo[fn]
@@ -3215,6 +3250,20 @@ func c05Unconditional(c *Ctx, root *ssa.Function, cores []ssa.Instruction) (bool
 							return s
 						}
 					}
+					handed, always := c05HandedFuncs(c, in.(ssa.CallInstruction))
+					for _, h := range handed {
+						if !reaches(h) {
+							continue
+						}
+						if !always {
+							return "the helper " + fnName(cal) + " does not call the functions handed to it on every path"
+						}
+						if !must(h, depth+1) {
+							if s := explain(h, depth+1); s != "" {
+								return s
+							}
+						}
+					}
 				}
 			}
 		}
@@ -3228,4 +3277,273 @@ func c05Unconditional(c *Ctx, root *ssa.Function, cores []ssa.Instruction) (bool
 		why = "no unconditional path to it from " + fnName(root)
 	}
 	return false, why
+}
+
+// c05HandedOn: the bool verdict v is returned unchanged by fn as result #j, every other return
+// of fn yielding false there; -1 otherwise.
+func c05HandedOn(fn *ssa.Function, v ssa.Value) int {
+	if !isBoolType(v.Type()) {
+		return -1
+	}
+	res := fn.Signature.Results()
+	for j := 0; j < res.Len(); j++ {
+		if !isBoolType(res.At(j).Type()) {
+			continue
+		}
+		hit, clean := false, true
+		for _, r := range returnsOf(fn) {
+			rs := retResults(r)
+			if j >= len(rs) {
+				clean = false
+				continue
+			}
+			if rs[j] == v {
+				hit = true
+				continue
+			}
+			if b, ok := constBool(rs[j]); !ok || b {
+				clean = false
+			}
+		}
+		if hit && clean {
+			return j
+		}
+	}
+	return -1
+}
+
+// ---------------------------------------------------------------------------
+// function values handed to a module helper that calls them
+
+func c05ResolveFuncValue(w *World, v ssa.Value) *ssa.Function {
+	var f *ssa.Function
+	switch x := v.(type) {
+	case *ssa.Function:
+		f = x
+	case *ssa.MakeClosure:
+		f, _ = x.Fn.(*ssa.Function)
+	}
+	if f == nil {
+		return nil
+	}
+	if strings.HasPrefix(f.Synthetic, "bound method wrapper") {
+		if fo, ok := f.Object().(*types.Func); ok {
+			if d := w.Prog.FuncValue(fo); d != nil {
+				return d
+			}
+		}
+	}
+	return f
+}
+
+type c05Runner struct {
+	calls  []ssa.Instruction // dynamic calls of function values derived from the helper's parameters
+	always bool              // every return of the helper is preceded by them (loops count when entered)
+}
+
+// c05RunnerOf: helper fn (itself or closures / module callees it starts, depth <= 2) calls
+// function values that derive from its own parameters.
+func c05RunnerOf(c *Ctx, fn *ssa.Function) *c05Runner {
+	w := c.W
+	m, _ := w.memo["c05runners"].(map[*ssa.Function]*c05Runner)
+	if m == nil {
+		m = map[*ssa.Function]*c05Runner{}
+		w.memo["c05runners"] = m
+	}
+	if r, ok := m[fn]; ok {
+		return r
+	}
+	m[fn] = nil // recursion guard
+	if fn == nil || len(fn.Blocks) == 0 || !inModule(fn) {
+		return nil
+	}
+	hasFuncParam := false
+	for _, p := range fn.Params {
+		if c05MayCarryFunc(p.Type(), 0) {
+			hasFuncParam = true
+		}
+	}
+	if !hasFuncParam {
+		return nil
+	}
+	tr := newC05Tracer(w, nil)
+	r := &c05Runner{}
+	for _, fr := range c05FramesGo(fn, 2) {
+		for _, b := range fr.fn.Blocks {
+			for _, in := range b.Instrs {
+				ci, ok := in.(ssa.CallInstruction)
+				if !ok {
+					continue
+				}
+				cc := ci.Common()
+				if cc.IsInvoke() || staticCallee(cc) != nil {
+					continue
+				}
+				if _, isB := cc.Value.(*ssa.Builtin); isB {
+					continue
+				}
+				os := c05NonConst(tr.origins(cc.Value, fr.ctx))
+				if c05All(os, func(o c05Origin) bool { return o.Kind == "param" && o.Fn == fn }) {
+					r.calls = append(r.calls, in)
+				}
+			}
+		}
+	}
+	if len(r.calls) == 0 {
+		return nil
+	}
+	r.always, _ = c05Unconditional(c, fn, r.calls)
+	m[fn] = r
+	return r
+}
+
+// c05MayCarryFunc: a value of type t can hold a function value (func, or slice/array/struct/
+// pointer/map of such), looked at to a small depth.
+func c05MayCarryFunc(t types.Type, d int) bool {
+	if d > 3 {
+		return false
+	}
+	switch u := t.Underlying().(type) {
+	case *types.Signature:
+		return true
+	case *types.Slice:
+		return c05MayCarryFunc(u.Elem(), d+1)
+	case *types.Array:
+		return c05MayCarryFunc(u.Elem(), d+1)
+	case *types.Pointer:
+		return c05MayCarryFunc(u.Elem(), d+1)
+	case *types.Map:
+		return c05MayCarryFunc(u.Elem(), d+1)
+	case *types.Struct:
+		for i := 0; i < u.NumFields(); i++ {
+			if c05MayCarryFunc(u.Field(i).Type(), d+1) {
+				return true
+			}
+		}
+	}
+	return false
+}
+
+// c05FramesGo: like c05Frames, but go statements count as calls too.
+func c05FramesGo(entry *ssa.Function, maxDepth int) []c05FrameOf {
+	var out []c05FrameOf
+	onPath := map[*ssa.Function]bool{}
+	var walk func(fn *ssa.Function, ctx *c05Frame, chain []ssa.CallInstruction, d int)
+	walk = func(fn *ssa.Function, ctx *c05Frame, chain []ssa.CallInstruction, d int) {
+		if onPath[fn] || fn.Blocks == nil {
+			return
+		}
+		onPath[fn] = true
+		defer delete(onPath, fn)
+		out = append(out, c05FrameOf{fn, ctx, append([]ssa.CallInstruction(nil), chain...)})
+		if d >= maxDepth {
+			return
+		}
+		for _, b := range fn.Blocks {
+			for _, in := range b.Instrs {
+				ci, ok := in.(ssa.CallInstruction)
+				if !ok {
+					continue
+				}
+				if _, isDefer := in.(*ssa.Defer); isDefer {
+					continue
+				}
+				cal := c05CalleeOf(ci)
+				if cal == nil || !inModule(cal) || cal.Blocks == nil {
+					continue
+				}
+				depth := 1
+				if ctx != nil {
+					depth = ctx.depth + 1
+				}
+				walk(cal, &c05Frame{site: ci, up: ctx, depth: depth}, append(chain, ci), d+1)
+			}
+		}
+	}
+	walk(entry, nil, nil, 0)
+	return out
+}
+
+// c05HandedFuncs: the function values (closures, functions, method values) contained in the
+// arguments of call ci when its callee is a runner: they are called at the position of ci.
+func c05HandedFuncs(c *Ctx, ci ssa.CallInstruction) (fns []*ssa.Function, always bool) {
+	cal := c05CalleeOf(ci)
+	if cal == nil {
+		return nil, false
+	}
+	carries := false
+	for _, a := range ci.Common().Args {
+		if c05MayCarryFunc(a.Type(), 0) {
+			carries = true
+		}
+	}
+	if !carries {
+		return nil, false
+	}
+	r := c05RunnerOf(c, cal)
+	if r == nil {
+		return nil, false
+	}
+	tr := newC05Tracer(c.W, nil)
+	seen := map[*ssa.Function]bool{}
+	for _, a := range ci.Common().Args {
+		if !c05MayCarryFunc(a.Type(), 0) {
+			continue
+		}
+		for _, o := range tr.contentOrigins(a, nil, ci) {
+			if o.Kind != "const" {
+				continue
+			}
+			if f := c05ResolveFuncValue(c.W, o.Val); f != nil && !seen[f] && len(f.Blocks) > 0 {
+				seen[f] = true
+				fns = append(fns, f)
+			}
+		}
+	}
+	return fns, r.always
+}
+
+// c05Reachable: module functions reachable from roots (static calls, module interface
+// implementations, closures) plus the function values handed to runner helpers.
+func c05Reachable(c *Ctx, roots []*ssa.Function, depth int) map[*ssa.Function]int {
+	w := c.W
+	dist := w.reachableFuncs(roots, depth)
+	for changed := true; changed; {
+		changed = false
+		var fns []*ssa.Function
+		for f := range dist {
+			fns = append(fns, f)
+		}
+		for _, f := range fns {
+			d := dist[f]
+			if depth >= 0 && d >= depth {
+				continue
+			}
+			for _, b := range f.Blocks {
+				for _, in := range b.Instrs {
+					ci, ok := in.(ssa.CallInstruction)
+					if !ok {
+						continue
+					}
+					handed, _ := c05HandedFuncs(c, ci)
+					for _, h := range handed {
+						if _, ok := dist[h]; ok {
+							continue
+						}
+						rem := depth
+						if depth >= 0 {
+							rem = depth - d - 1
+						}
+						for g, dg := range w.reachableFuncs([]*ssa.Function{h}, rem) {
+							if _, ok := dist[g]; !ok {
+								dist[g] = d + 1 + dg
+								changed = true
+							}
+						}
+					}
+				}
+			}
+		}
+	}
+	return dist
 }
